@@ -248,6 +248,7 @@ func c20(ctx *Ctx) (*Outcome, error) {
 	}
 	cases = append(cases, c20NameTakenCases()...)
 	cases = append(cases, c20NearNameCases()...)
+	cases = append(cases, c20EnumConstCases()...)
 	n = len(cases)
 	results = make([]res, n)
 	stage.Parallel(n, func(i int) {
@@ -759,6 +760,31 @@ func c20NearNameCases() []*c20case {
 			}
 			out = append(out, c)
 		}
+	}
+	return out
+}
+
+// c20EnumConstCases: two schemas, each in a package and file of its own, each with a string enum definition of the
+// SAME name whose values are different strings that map to the same constant identifier ("in-progress" /
+// "in_progress"): each schema's file holds all of its constants, whatever else is generated in the run.
+func c20EnumConstCases() []*c20case {
+	var out []*c20case
+	for v := 0; v < 3; v++ {
+		vals := [][2][]any{{{"open", "in-progress", "done"}, {"open", "in_progress", "closed"}}, {{"a b", "c"}, {"a-b", "c"}}, {{"X.Y", "z"}, {"x y", "z"}}}[v]
+		mk := func(k int, name string) *sg.SchemaFile {
+			st := &sg.Schema{Types: []string{"string"}, HasEnum: true, Enum: vals[k]}
+			root := &sg.Schema{ID: fmt.Sprintf("https://example.com/enumconst/%d/%s", v, name), Types: []string{"object"}, Defs: []sg.Prop{{Name: "Status", S: st}},
+				Props: []sg.Prop{{Name: "status", S: &sg.Schema{Ref: "#/$defs/Status", Target: st}}, {Name: name + "No", S: &sg.Schema{Types: []string{"integer"}}}}}
+			return &sg.SchemaFile{Path: name + ".json", Root: root, ID: root.ID, Name: name}
+		}
+		a, b := mk(0, "orders"), mk(1, "tickets")
+		c := &c20case{fs: &sg.FileSet{Files: []*sg.SchemaFile{a, b}}, maps: map[string]c20map{}, sig: fmt.Sprintf("enum-constants-across-packages v=%d", v)}
+		for _, f := range []*sg.SchemaFile{a, b} {
+			m := c20map{pkg: c20Mod + "/" + f.Name, out: f.Name + "/gen.go", rootType: f.RootType()}
+			c.maps[f.Name] = m
+			c.flags = append(c.flags, "--schema-package", f.ID+"="+m.pkg, "--schema-output", f.ID+"="+m.out)
+		}
+		out = append(out, c)
 	}
 	return out
 }
